@@ -20,6 +20,7 @@ func checkC04(p *Prog, r *Report) {
 	c04Transform(p, r, "C04.R4")
 	c04LoadYear(p, r)
 	c04DayCounter(p, r)
+	c04Dispatch(p, r)
 	c04StartOffset(p, r, "C04.R7")
 	sentinelFallback(p, r, "C04.R8")
 	c04TodayIndex(p, r)
